@@ -6,7 +6,7 @@
 //   rel x<from> x<to>      -> getRelativePath
 // File system ops (paths are RELATIVE names such as a/b inside the scratch tree, "-" = none):
 //   open p k | write x<hex> | seek off whence | readall | close | put p k x<hex> | get p | copy p q k |
-//   rename p q k | unlink p | dcreate p | dunlink p k | symlink p k | fexists p | dexists p
+//   rename p q k | unlink p | dcreate p | dcreated p k (create p/. or p/..) | dunlink p k | symlink p k | fexists p | dexists p
 // The driver creates <base>/fs.<pid>/{in,out}, chdir()s into .../in and never touches anything outside
 // <base>/fs.<pid>, which it removes at exit.  .../out is the "outside" sentinel tree that symbolic links point
 // to.  After every op it logs a snapshot (path components, type, content) of both trees.
@@ -329,6 +329,7 @@ void drv_apply(const char* op)
   else if(!strcmp(op, "rename")) r = File::rename(sp, sq, k == 1) ? 1 : 0;
   else if(!strcmp(op, "unlink")) r = File::unlink(sp) ? 1 : 0;
   else if(!strcmp(op, "dcreate")) r = Directory::create(sp) ? 1 : 0;
+  else if(!strcmp(op, "dcreated")) { String dp(sp); dp.append(k == 1 ? String("/..") : String("/.")); r = Directory::create(dp) ? 1 : 0; }
   else if(!strcmp(op, "dunlink")) r = Directory::unlink(sp, k == 1) ? 1 : 0;
   else if(!strcmp(op, "symlink")) r = File::createSymbolicLink(String(k == 0 ? g_lnF : g_lnD, String::length(k == 0 ? g_lnF : g_lnD)), sp) ? 1 : 0;
   else if(!strcmp(op, "fexists")) r = File::exists(sp) ? 1 : 0;
